@@ -25,6 +25,11 @@ CHECKS = {
    level_text='Design: on MailboxSync.tla TLC checks that no step of a session with a read-only selection changes the store. Code: one session EXAMINEs INBOX or SELECTs a backend-read-only mailbox and issues seeded random programs of every message command and UID variant (STORE incl. \\Recent, \\Seen-setting FETCH, EXPUNGE, UID EXPUNGE, COPY, MOVE, SEARCH, NOOP, CHECK, CLOSE) and APPEND/COPY/MOVE into the read-only mailbox, interleaved at every lock checkpoint with 0-2 observing sessions; after every tagged response a dump (UIDs, permanent flags, stored recent bits) is logged; TLC checks on each recorded execution that every dump equals the baseline, that STORE/EXPUNGE/deliveries into the read-only mailbox answer NO, and that CLOSE answers OK and deselects.',
    level_note='Trusted: TLC, strict response parser, glass-box dump of MailboxData._messages (incl. Message.recent = what the next read-write session is given). Other sessions only observe, as the property says. APPEND/COPY by the examining session into the examined mailbox are ordinary deliveries (covered by C17 for the \\Recent clause). Dict backend.',
    design_ref='DESIGN.md section 7 C12'),
+ 'C14': dict(
+   technique='fault injection at every parking point of the real execution of MOVE/COPY/multi-APPEND/EXPUNGE (task cancellation, disconnect, exception from that storage call) with a second session, store logged after every driver step, validated by TLC against the conservation observer spec Trace_Conserve.tla',
+   level_text='For each seeded command instance the harness first measures the parking points of its real execution (lock checkpoints) and then repeats the run once per point and fault kind, with a second session\'s command at a seeded placement; the content of all mailboxes is logged after EVERY driver step, so the invariant is evaluated at every instant between two critical sections, not only at the end. TLC checks: no content id ever vanishes (except \\Deleted messages while an EXPUNGE/CLOSE is in flight), a MOVE answered OK left each message exactly in the destination under the COPYUID UID, a multi-APPEND that did not end OK left nothing, a command answered NO/BAD left everything unchanged. Open known findings are tolerated INSIDE the observer (named deviation) so the remaining clauses are still checked on those traces.',
+   level_note='Dict backend; lock acquisitions are possible suspension points (both open findings need that or a storage error). Process kill and os-level faults belong to the maildir backend and are not covered yet. The second session does not expunge or delete.',
+   design_ref='DESIGN.md section 7 C14'),
  'C16': dict(
    technique='random checkpoint-interleaved executions with idling sessions on slow (drain-gated) connections on the real server, run until no task is runnable, validated by TLC against the observer spec Trace_Sync.tla (IdleCheck / IdleEnd clauses); MailboxSync.tla behaviours replayed as in C01',
    level_text='Seeded schedules place bursts of APPEND/STORE/EXPUNGE/COPY/MOVE by 1-2 writers at every parking point of 1-2 idling sessions, including while the idler is blocked in drain() writing a previous notification; after the burst the loop runs until nothing is runnable and TLC checks on the recorded execution that every change made since "+ idling" (message added, removed, flags changed) has reached the idling client with no further stimulus, that pushed data obeys the C01 clauses, that DONE ends IDLE with OK and anything else with BAD.',
